@@ -157,6 +157,9 @@ mut("C20 N: commuted products", [(VEC, "                acc + left.ref_mul(right
 mut("C07 reader one() returns zero", [(RNG, "        self.cache[0].one()", "        self.cache[0].zero()")], C07="C07-", C11="C11-")
 mut("C07 N: reader zero() returns one (only ever a precision carrier / overwritten initial value)", [(RNG, "        self.cache[0].zero()", "        self.cache[0].one()")], C08=None, C07=None, C11=None)
 mut("C07 N: reader one() through a local", [(RNG, "        self.cache[0].one()", "        let first = &self.cache[0];\n        first.one()")], C07=None, C11=None, C14=None)
+# ---- the matrix zero constructors (abstracted by the storage model) are decided from their bodies ----
+mut("C15 new_zeros fills with ones", [(MAT, "data: SmallVec::from_elem(self.data[0].zero(), dim * dim),", "data: SmallVec::from_elem(self.data[0].one(), dim * dim),")], C15="C15-", C08="C08-c", C16="C16-e")
+mut("C15 new_zeros_from_num allocates dim + dim", [(MAT, "data: SmallVec::from_elem(builder.zero(), dim * dim),", "data: SmallVec::from_elem(builder.zero(), dim + dim),")], C15="C15-", C10="C10-d")
 # ---- C15-e series, decided at matrix level ----
 _PUSH_OLD = """            let last_power_of_n = powers_of_n
                 .last()
